@@ -2,15 +2,18 @@
 //!
 //! Two formats are checked: the field-numbered format of crate `tuple_key` (elements
 //! unit/u32/u64/i32/i64/String, each ascending or descending) and the compact format of crate
-//! `tuple_key2` (unit/u32/u64/i32/i64/string/bytes, ascending only — the crate has no notion of a
-//! direction).
+//! `tuple_key2` (unit/u8/u16/u32/u64/i8/i16/i32/i64/string/bytes, ascending only — the crate has
+//! no notion of a direction).
 //!
 //! Oracles (all computed here from the source tuples, never from the crates):
 //!   order      cmp(enc(a), enc(b)) == cmp_tuple(a, b), element by element, reversed for
 //!              descending elements;
 //!   extension  enc(t) < enc(t ++ u) and, for t' > t, enc(t ++ u) < enc(t') (and < enc(t' ++ u'));
 //!   roundtrip  parsing with the same type sequence returns the tuple;
-//!   decode     arbitrary / damaged bytes give `Err` or a value, never a panic.
+//!   decode     arbitrary / damaged bytes give `Err` or a value, never a panic — for the hand-driven
+//!              parsers and for the derived `TryFrom<TupleKey>` (part tk1-derive-decode);
+//!   api        keys extended through `TupleKey::append` / `TupleKeyBuilder::{extend, tuple_key}`
+//!              are byte-identical to the from-scratch encodings the laws above are judged on.
 //!
 //! Known finding R-N (tuple_key, descending strings): `reverse_encoding` inverts the seven data
 //! bits of every byte but keeps the continuation bit, so when two strings' forward encodings
@@ -1944,12 +1947,13 @@ fn main() {
     let check = Check::new(
         "C16",
         "exploration",
-        "proptest-generated schemas (1-6 columns over unit/u32/u64/i32/i64/string[/bytes], each ascending or descending for tuple_key, with field numbers at the 1/2/3/4/5-byte tag boundaries) and pairs of tuples correlated by construction: equal prefix of generated length, then one correlated element pair (integers: equal, +-1, +2, negated, one bit flipped, independent, drawn from 0, +-1, +-2, +-2^(7k)+-1, +-2^(8k)+-1, MIN, MAX and random widths; strings/bytes: equal, proper prefix, differing in the last unit, differing after a common prefix, empty vs non-empty, independent, over alphabets rich in NUL, 0x01, 0xff / U+10FFFF), rest correlated again. order: cmp(enc a, enc b) == cmp_tuple(a, b) with per-element direction reversal; extension: enc(t) proper prefix of and before enc(t++u), and enc(t++u[..m]) < enc(t') and < enc(t'++u') for every m when t < t'; roundtrip: parse with the same type sequence (and peek_next, iterator, Schema::args_for_key, derived TryFrom) returns the tuple; decode: arbitrary bytes and 1-3 byte-level mutations of valid encodings never panic (tuple_key2: accepted bytes re-encode to themselves). Non-trivial: (order/extension/derive) the tuples differ and either share >= 1 leading element or their first differing elements are strings/bytes with a common prefix or an empty side, or integers at distance <= 2, of opposite sign or of different 7-bit/8-bit length (extension additionally needs a non-empty u); (roundtrip) >= 2 elements, one not unit; (decode) non-empty input that is a damaged valid encoding or of which at least one element was accepted. One further part enumerates exhaustively 219 024 pairs of descending tuple_key strings ('@'^k ++ x, '@'^k ++ y; x, y all strings of length <= 3 over {NUL, U+1, U+2, '@', U+80}; k = 0..8) to validate the R-N trigger predicate at every 7-bit alignment. Distinct by structural hash of the case.",
+        "proptest-generated schemas (1-6 columns over unit/u32/u64/i32/i64/string[/bytes/u8/u16/i8/i16 for tuple_key2], each ascending or descending for tuple_key, with field numbers at the 1/2/3/4/5-byte tag boundaries) and pairs of tuples correlated by construction: equal prefix of generated length, then one correlated element pair (integers: equal, +-1, +2, negated, one bit flipped, independent, drawn from 0, +-1, +-2, +-2^(7k)+-1, +-2^(8k)+-1, MIN, MAX and random widths; strings/bytes: equal, proper prefix, differing in the last unit, differing after a common prefix, empty vs non-empty, independent, over alphabets rich in NUL, 0x01, 0xff / U+10FFFF), rest correlated again. order: cmp(enc a, enc b) == cmp_tuple(a, b) with per-element direction reversal; extension: enc(t) proper prefix of and before enc(t++u), and enc(t++u[..m]) < enc(t') and < enc(t'++u') for every m when t < t'; every extended key is additionally built by extending enc(t) through the crates' extension APIs (tuple_key: TupleKey::append - whole suffix, element by element, empty suffix - and extend/extend_with_key on the existing key; tuple_key2: TupleKeyBuilder::{extend, tuple_key, with_capacity, as_bytes, finish}, TupleKey::builder_with_capacity, From<TupleKeyBuilder>, From<Vec<u8>> + TupleKey::append) and must be byte-identical to the from-scratch encoding the laws are judged on; roundtrip: parse with the same type sequence (and peek_next, iterator, Schema::args_for_key, derived TryFrom) returns the tuple; tuple_key2 additionally has the narrow integer elements u8/u16/i8/i16 in every part, and every integer element is built with every builder and parsed with every parser of its family (value when it fits, ValueOutOfRange{target} when not) and of the other family (InvalidIntegerTag); decode: arbitrary bytes and 1-3 byte-level mutations of valid encodings never panic (tuple_key2: accepted bytes re-encode to themselves); derive-decode: the derived TryFrom<TupleKey> of four structs is fed damaged valid encodings (optionally followed by further well-formed elements) and arbitrary bytes: no panic, Ok exactly when the hand-driven parser reads all the struct's columns and with the same values, the accepted value's own Into<TupleKey> is the from-scratch encoding of its fields and parses back to it. Non-trivial: (order/extension/derive) the tuples differ and either share >= 1 leading element or their first differing elements are strings/bytes with a common prefix or an empty side, or integers at distance <= 2, of opposite sign or of different 7-bit/8-bit length (extension additionally needs a non-empty u); (roundtrip) >= 2 elements, one not unit; (decode, derive-decode) non-empty input that is a damaged valid encoding or of which at least one element was accepted. One further part enumerates exhaustively 219 024 pairs of descending tuple_key strings ('@'^k ++ x, '@'^k ++ y; x, y all strings of length <= 3 over {NUL, U+1, U+2, '@', U+80}; k = 0..8) to validate the R-N trigger predicate at every 7-bit alignment. Distinct by structural hash of the case.",
     )
     .assume("tuples are compared only under one schema: same element types, directions and (tuple_key) field numbers; tuple_key orders different field numbers / types by their tag bytes, which is not part of the property")
     .assume("tuple_key has no bytes element and its integers are fixed-width (5 / 10 bytes), so 'bytes' and variable-length integers are exercised in tuple_key2 only; tuple_key2 has no descending direction, so directions are exercised in tuple_key only")
     .assume("strings compare by their UTF-8 bytes (Rust's str order); tuple_key strings are Rust Strings and therefore cannot contain 0xff bytes — 0xff is exercised through U+10FFFF/other multi-byte characters in tuple_key and through bytes elements in tuple_key2")
-    .assume("tuple_key2's u32/i32 builders are the u64/i64 encodings of the widened value (documented); parsing uses the same method as building")
+    .assume("tuple_key2's u8/u16/u32 and i8/i16/i32 builders are the u64/i64 encodings of the widened value (documented: 'using the compact (un)signed integer family'); tuples are parsed with the method of the type they were built with, and additionally each single integer with every other width (documented ValueOutOfRange / InvalidIntegerTag answers); tuple_key has no narrow integers")
+    .assume("nothing documents that a derived TryFrom<TupleKey> consumes the whole key (the generated code stops after the last field), so well-formed or damaged bytes after the last field may be accepted or rejected: counted by label, not asserted; tuple_key parsers may accept non-canonical input (e.g. the unused low bits of a fixed-width integer's last byte), also only labelled")
     .assume("the known finding R-N (tuple_key descending-string pairs whose forward encodings first differ only in the continuation bit) is excluded by construction outside strict mode and counted; nothing else is excluded")
     .assume("decoders may return a value for damaged input; only panics (and, for tuple_key2 whose docs promise canonical encodings, accepted bytes that do not re-encode to themselves) are failures")
     .pbt(Order { fmt: Fmt::Tk1, desc_string_focus: false })
